@@ -1261,8 +1261,15 @@ type Clause struct {
 
 func (c Clause) String() string {
 	headStr := c.Head.String()
-	if c.HeadTime != nil && !c.HeadTime.IsEternal() {
-		headStr += c.HeadTime.String()
+	if c.HeadTime != nil {
+		if c.HeadTime.IsEternal() {
+			// Interval.String prints nothing for the eternal interval, but a clause written
+			// with @[_, _] differs from one without annotation (the latter is rejected for
+			// predicates declared temporal).
+			headStr += "@[_, _]"
+		} else {
+			headStr += c.HeadTime.String()
+		}
 	}
 	if c.Premises == nil {
 		return fmt.Sprintf("%s.", headStr)
